@@ -75,7 +75,7 @@ PROPS = {
   'quick': {'cases': 9600, 'max_size': 300, 'exhaustive': True, 'wall_s': 900},
   'thorough': {'cases': 160000, 'max_size': 400, 'exhaustive': True, 'wall_s': 3400, 'fuzz': {'runs': 400000, 'max_len': 4096, 'jobs': 16}},
   'leaks': True,
-  'essential_classes': ['mode:model-signature', 'sig:parsed', 'aggr:parsed', 'ext:parsed', 'pubfile:parsed', 'tlv:parsed', 'element:parsed', 'mode:tree-mutation', 'mode:byte-mutation', 'mode:raw', 'context-reuse-checks'],
+  'essential_classes': ['option:small-datahash-cache', 'mode:model-signature', 'sig:parsed', 'aggr:parsed', 'ext:parsed', 'pubfile:parsed', 'tlv:parsed', 'element:parsed', 'mode:tree-mutation', 'mode:byte-mutation', 'mode:raw', 'context-reuse-checks'],
   'assumptions': ['only the generated inputs are covered; nothing is claimed for inputs not generated'],
  }, 'C16': {
   'technique': 'model-based property testing (rapidcheck + exhaustive leaf counts) against a reference forest merge and the reference chain formula',
@@ -211,7 +211,7 @@ PROPS = {
   'quick': {'cases': 3200, 'max_size': 300, 'exhaustive': True, 'wall_s': 1200},
   'thorough': {'cases': 64000, 'max_size': 400, 'exhaustive': True, 'wall_s': 3400},
   'sim': ['simsock', 'fakecurl', 'simclock'],
-  'essential_classes': ['mode:random-chunks', 'mode:close-at-offset', 'mode:reset-at-offset', 'mode:blocking-chunks', 'mode:blocking-truncated', 'mode:cut-inside-request-stream', 'eintr-injected', 'split-inside-header', 'request-on-fresh-connection', 'request-cut-short-by-connection-end', 'baseline-with-completed-responses'],
+  'essential_classes': ['mode:handles-added-again', 'mode:random-chunks', 'mode:close-at-offset', 'mode:reset-at-offset', 'mode:blocking-chunks', 'mode:blocking-truncated', 'mode:cut-inside-request-stream', 'eintr-injected', 'split-inside-header', 'request-on-fresh-connection', 'request-cut-short-by-connection-end', 'baseline-with-completed-responses'],
   'assumptions': ['simulated socket semantics as documented in sim/simnet.hpp'],
  }, 'C15': {
   'technique': 'exhaustive outcome/order table + rapidcheck for configuration sets, over simulated endpoints; oracle = first-valid-wins model and a reference fold',
@@ -224,7 +224,7 @@ PROPS = {
   'quick': {'cases': 6400, 'max_size': 150, 'exhaustive': True, 'wall_s': 1200},
   'thorough': {'cases': 32000, 'max_size': 200, 'exhaustive': True, 'wall_s': 3400},
   'sim': ['simsock', 'fakecurl', 'simclock'],
-  'essential_classes': ['history:earlier-request-dropped-in-flight', 'single:response', 'single:all-failed', 'error-notice-seen', 'two-requests:cache-full-on-one-endpoint', 'config:extending', 'config:signing', 'config:with-out-of-range-value', 'endpoints:3'],
+  'essential_classes': ['config:unsolicited-push', 'history:earlier-request-dropped-in-flight', 'single:response', 'single:all-failed', 'error-notice-seen', 'two-requests:cache-full-on-one-endpoint', 'config:extending', 'config:signing', 'config:with-out-of-range-value', 'endpoints:3'],
   'assumptions': ['simulated socket semantics as documented in sim/simnet.hpp'],
  }, 'C11': {
   'technique': 'stateful property testing (rapidcheck histories) with byte-equality invariants and a differential against fresh contexts',
@@ -236,7 +236,7 @@ PROPS = {
   'quick': {'cases': 3200, 'max_size': 300, 'wall_s': 900},
   'thorough': {'cases': 64000, 'max_size': 400, 'wall_s': 3000, 'fuzz': {'runs': 40000, 'max_len': 1500, 'jobs': 16}},
   'sim': ['simsock', 'fakecurl', 'simclock'],
-  'essential_classes': ['shared-verification-context', 'pool:unknown-extension-elements', 'pool:consistent', 'pool:inconsistent', 'pool:legacy', 'history:verifies-with-different-outcomes', 'history:with-derive-operation', 'derive:extended', 'derive:root-level', 'derive:prepended', 'both-cache-configurations'],
+  'essential_classes': ['derive:extend-to-borrowed-record', 'verify:with-user-publications-file', 'shared-verification-context', 'pool:unknown-extension-elements', 'pool:consistent', 'pool:inconsistent', 'pool:legacy', 'history:verifies-with-different-outcomes', 'history:with-derive-operation', 'derive:extended', 'derive:root-level', 'derive:prepended', 'both-cache-configurations'],
   'assumptions': ['reference extender is stateless, so fresh-context verifications see the same server behaviour'],
  },
  'C10': {
@@ -270,12 +270,12 @@ PROPS = {
                 'exhaustively and must never leave the file trusted. Lookups (by time, nearest, latest with and without bound, find, certificate by id) are compared with a reference scan over '
                 'random publication sets with ties, boundary times up to 2^64-1 and empty sets.',
   'level_note': 'Trusted: OpenSSL for producing the PKCS#7 signatures and certificates, ref/schema.cpp, the scan in harness/C18.cpp. Certificate expiry is not exercised (fixture validity 2000..2099). '
-                'Which constraint list applies when the file-specific list is empty while the context has one is not stated by the property and is not asserted.',
+                'An explicitly empty file-specific constraint list replaces the context defaults: no constraint is in force and the file must not be trusted.',
   'rule': 'inputs: (record sequence with edits, signer, certificate bag, anchor set, constraint placement and values, signed-range choice) | (publication set, certificate ids, queries) | '
           '(small signed file, byte position, mask). Non-trivial = every structure/trust and byte-change case; lookup cases with at least one record. distinct = distinct descriptor.',
   'quick': {'cases': 24000, 'max_size': 300, 'exhaustive': True, 'wall_s': 900},
   'thorough': {'cases': 400000, 'max_size': 400, 'exhaustive': True, 'wall_s': 3400},
-  'essential_classes': ['mode:structure-and-trust', 'verified-under-another-context', 'mode:lookup', 'mode:byte-change', 'expect:trusted', 'expect:not-trusted', 'expect:parse-refused', 'signed-range:inexact', 'chain:not-anchored',
+  'essential_classes': ['find:member', 'find:non-member', 'constraints:empty-file-list-over-context', 'mode:structure-and-trust', 'verified-under-another-context', 'mode:lookup', 'mode:byte-change', 'expect:trusted', 'expect:not-trusted', 'expect:parse-refused', 'signed-range:inexact', 'chain:not-anchored',
                         'constraints:none', 'constraints:mismatch', 'constraint:proper-prefix', 'constraint:empty', 'constraint:extended', 'flip:signed-range', 'flip:signature-value', 'flip:still-parses',
                         'lookup:ties', 'nearest:hit', 'nearest:miss', 'by-time:hit', 'cert-by-id:hit', 'cert-by-id:miss', 'rule-violated:element-after-signature', 'rule-violated:section-out-of-order'],
   'assumptions': ['certificate validity periods are not varied', 'only the generated inputs are covered'],
